@@ -172,7 +172,7 @@ func IsInjected(err error) bool {
 // Op describes one backend operation of one client.  The PreOp hook sees it before execution;
 // the PostOp hook sees it with the outcome fields set.
 type Op struct {
-	Seq      int64  // store-wide sequence number of the operation attempt (1,2,3,...)
+	Seq      int64 // store-wide sequence number of the operation attempt (1,2,3,...)
 	Client   *Client
 	Kind     OpKind
 	Key      model.Key           // nil for List/Watch
